@@ -191,6 +191,8 @@ pub enum Ast {
     Chain(Vec<Ast>),
     /// absent element / `()`
     Empty,
+    /// a D6 word used as an operand: matches a constant or a variable read of that word
+    Opaque(String),
     /// explicit parenthesised group (only in trees produced by the reference parser)
     Paren(Box<Ast>),
     /// the real tree has a shape no well-formed source has (normaliser only)
@@ -211,8 +213,38 @@ impl Ast {
                 a.len() == b.len() && a.iter().zip(b).all(|(x, y)| x.same(y))
             },
             (Empty, Empty) => true,
+            (Opaque(a), Opaque(b)) => a == b,
             (Malformed(a), Malformed(b)) => a == b,
             _ => false,
+        }
+    }
+
+    /// Like `same`, but an `Opaque(w)` leaf of `self` (the expectation) matches any constant or a
+    /// read of the variable `w` in `got`.
+    pub fn matches_tree(&self, got: &Ast) -> bool {
+        use Ast::*;
+        match (self, got) {
+            (Opaque(_), Lit(_)) => true,
+            (Opaque(w), Var(v)) => w == v,
+            (Call(a, x), Call(b, y)) => a == b && x.matches_tree(y),
+            (Neg(a), Neg(b)) | (Not(a), Not(b)) | (Paren(a), Paren(b)) => a.matches_tree(b),
+            (Bin(o1, a1, b1), Bin(o2, a2, b2)) => o1 == o2 && a1.matches_tree(a2) && b1.matches_tree(b2),
+            (Assign(o1, n1, e1), Assign(o2, n2, e2)) => o1 == o2 && n1 == n2 && e1.matches_tree(e2),
+            (Tuple(a), Tuple(b)) | (Chain(a), Chain(b)) => {
+                a.len() == b.len() && a.iter().zip(b).all(|(x, y)| x.matches_tree(y))
+            },
+            (a, b) => a.same(b),
+        }
+    }
+
+    pub fn has_opaque(&self) -> bool {
+        use Ast::*;
+        match self {
+            Opaque(_) => true,
+            Lit(_) | Var(_) | Empty | Malformed(_) => false,
+            Call(_, a) | Neg(a) | Not(a) | Paren(a) | Assign(_, _, a) => a.has_opaque(),
+            Bin(_, a, b) => a.has_opaque() || b.has_opaque(),
+            Tuple(v) | Chain(v) => v.iter().any(|a| a.has_opaque()),
         }
     }
 
@@ -221,7 +253,7 @@ impl Ast {
         use Ast::*;
         match self {
             Paren(a) => a.strip_parens(),
-            Lit(_) | Var(_) | Empty | Malformed(_) => self.clone(),
+            Lit(_) | Var(_) | Empty | Opaque(_) | Malformed(_) => self.clone(),
             Call(n, a) => Call(n.clone(), Box::new(a.strip_parens())),
             Neg(a) => Neg(Box::new(a.strip_parens())),
             Not(a) => Not(Box::new(a.strip_parens())),
@@ -246,6 +278,7 @@ impl Ast {
             Tuple(v) => format!("(tuple {})", v.iter().map(|a| a.sexp()).collect::<Vec<_>>().join(" ")),
             Chain(v) => format!("(chain {})", v.iter().map(|a| a.sexp()).collect::<Vec<_>>().join(" ")),
             Empty => "()".into(),
+            Opaque(w) => format!("opaque:{}", w),
             Paren(a) => format!("(paren {})", a.sexp()),
             Malformed(m) => format!("(malformed {})", m),
         }
@@ -254,7 +287,7 @@ impl Ast {
     pub fn node_count(&self) -> usize {
         use Ast::*;
         match self {
-            Lit(_) | Var(_) | Empty | Malformed(_) => 1,
+            Lit(_) | Var(_) | Empty | Opaque(_) | Malformed(_) => 1,
             Call(_, a) | Neg(a) | Not(a) | Paren(a) | Assign(_, _, a) => 1 + a.node_count(),
             Bin(_, a, b) => 1 + a.node_count() + b.node_count(),
             Tuple(v) | Chain(v) => 1 + v.iter().map(|a| a.node_count()).sum::<usize>(),
@@ -264,7 +297,7 @@ impl Ast {
     pub fn depth(&self) -> usize {
         use Ast::*;
         match self {
-            Lit(_) | Var(_) | Empty | Malformed(_) => 1,
+            Lit(_) | Var(_) | Empty | Opaque(_) | Malformed(_) => 1,
             Call(_, a) | Neg(a) | Not(a) | Paren(a) | Assign(_, _, a) => 1 + a.depth(),
             Bin(_, a, b) => 1 + a.depth().max(b.depth()),
             Tuple(v) | Chain(v) => 1 + v.iter().map(|a| a.depth()).max().unwrap_or(0),
@@ -275,7 +308,7 @@ impl Ast {
         use Ast::*;
         match self {
             Assign(..) => true,
-            Lit(_) | Var(_) | Empty | Malformed(_) => false,
+            Lit(_) | Var(_) | Empty | Opaque(_) | Malformed(_) => false,
             Call(_, a) | Neg(a) | Not(a) | Paren(a) => a.has_assignment(),
             Bin(_, a, b) => a.has_assignment() || b.has_assignment(),
             Tuple(v) | Chain(v) => v.iter().any(|a| a.has_assignment()),
@@ -286,7 +319,7 @@ impl Ast {
         use Ast::*;
         match self {
             Malformed(_) => true,
-            Lit(_) | Var(_) | Empty => false,
+            Lit(_) | Var(_) | Empty | Opaque(_) => false,
             Call(_, a) | Neg(a) | Not(a) | Paren(a) | Assign(_, _, a) => a.has_malformed(),
             Bin(_, a, b) => a.has_malformed() || b.has_malformed(),
             Tuple(v) | Chain(v) => v.iter().any(|a| a.has_malformed()),
@@ -297,7 +330,7 @@ impl Ast {
     pub fn occurrences(&self, out: &mut Vec<(String, char)>) {
         use Ast::*;
         match self {
-            Lit(_) | Empty | Malformed(_) => {},
+            Lit(_) | Empty | Opaque(_) | Malformed(_) => {},
             Var(n) => out.push((n.clone(), 'r')),
             Call(n, a) => {
                 out.push((n.clone(), 'c'));
@@ -389,7 +422,7 @@ enum Pos {
 }
 
 fn is_primary(a: &Ast) -> bool {
-    matches!(a, Ast::Lit(_) | Ast::Var(_))
+    matches!(a, Ast::Lit(_) | Ast::Var(_) | Ast::Opaque(_))
 }
 
 /// Does `a` at position `pos` need parentheses for the reference grammar to read it back as `a`?
@@ -402,7 +435,7 @@ fn needs_parens(a: &Ast, pos: Pos) -> bool {
             Pos::Elem | Pos::TupleElem | Pos::ChainMember => false,
             _ => true,
         },
-        Lit(_) | Var(_) => false,
+        Lit(_) | Var(_) | Opaque(_) => false,
         Call(..) => match pos {
             Pos::Arg => false, // `f g x` is f(g(x))
             _ => false,
@@ -477,6 +510,7 @@ fn render_inner(a: &Ast, pos: Pos, ch: &mut dyn RenderChoice, out: &mut Vec<Tok>
             other => panic!("not a literal: {:?}", other),
         }),
         Var(n) => out.push(Tok::Ident(n.clone())),
+        Opaque(w) => out.push(Tok::Opaque(w.clone())),
         Empty => {},
         Malformed(m) => panic!("cannot render malformed tree {}", m),
         Paren(inner) => {
